@@ -9,6 +9,7 @@ import (
 	"runtime"
 	"sync"
 	"sync/atomic"
+	"syscall"
 	"testing"
 
 	"golang.org/x/sys/unix"
@@ -631,6 +632,7 @@ func TestVerifC24(t *testing.T) {
 	}
 	wg.Wait()
 
+	c.Set("cpu_seconds", float64(int(c24cpu()*10))/10)
 	c.Set("evaluations", tot.evals)
 	c.Set("distinct_nontrivial", tot.multi)
 	c.Set("rule", "one evaluation = one distinct superpacket spec (IP shape, L4 shape, gso size, payload length, flags, seq/ID/address variant, payload pattern, checksum-field content); non-trivial = the segmenter yielded at least two segments")
@@ -651,4 +653,13 @@ func TestVerifC24(t *testing.T) {
 	c.Assume("'at most the segment size' is taken literally: non-final segments are not required to be exactly gso bytes; at least one segment is required even for a header-only superpacket")
 	c.Assume("header bytes other than lengths, IPv4 ID/checksum, TCP seq/flags/checksum, UDP length/checksum must equal the superpacket's (reading of 'original segments'); the last segment keeps the original FIN/PSH, the first the original CWR")
 	c.Assume("only well-formed superpackets (csum_start = real L3 header length, consistent data offset) are enumerated; hdr_len as supplied by the kernel is NOT trusted (true value, whole-packet length, 0)")
+}
+
+// c24cpu returns the CPU seconds (user+system) this process has consumed: wall time is meaningless on a shared machine.
+func c24cpu() float64 {
+	var ru syscall.Rusage
+	if syscall.Getrusage(syscall.RUSAGE_SELF, &ru) != nil {
+		return 0
+	}
+	return float64(ru.Utime.Sec+ru.Stime.Sec) + float64(ru.Utime.Usec+ru.Stime.Usec)/1e6
 }
